@@ -15,22 +15,22 @@ LEVEL_NOTE = (
 CLAIMS = {
     'C01': ('proof', 'Lean theorems on the model of find_or_add/_ite/apply (DDProps/C01), also after every history with reorderings and with dynamic reordering switched on and off (Histories2) + apply table regenerated from source and re-proved by decide + correspondence of model and code on exhaustive operand pairs, histories, wide managers (30-80 variables, diagrams of thousands of nodes, sampled-assignment oracle)', 'Lean 4 proof + regenerated tables + differential correspondence'),
     'C02': ('proof', 'canonicity theorem for the model invariant (DDProps/C02) + preservation by every modelled operation incl. reorderings, undeclare_vars, copy.copy(bdd), BDD.reduction, update_predecessors; every-history forms over histories with swaps / sifting / reorder-to-order / configure; exact-state correspondence; routes oracle on the real code; wide managers and large diagrams', 'Lean 4 proof + differential correspondence'),
-    'C03': ('proof', 'quantification on the model (DDProps/C03) tied by exhaustive 3-variable correspondence', 'Lean 4 proof + differential correspondence'),
-    'C04': ('proof', 'cofactor/compose/rename on the model (DDProps/C04) tied by exhaustive 3-variable correspondence', 'Lean 4 proof + differential correspondence'),
-    'C05': ('proof', 'Lean model of the lexer (driven by the regenerated token tables) and a Pratt parser parametrised by the regenerated precedence table; print/parse round trip proved for every syntax tree, precedence table = documented table by decide, add_expr = bottom-up evaluation of the tree read, to_expr text = ite-unfolding; PLY/astutils tied by exhaustive short token strings and generated formulas; the semantic half (meaning of the evaluated tree) is stated, its pieces are the C01/C03/C04 theorems', 'Lean 4 proof + regenerated tables + differential correspondence'),
+    'C03': ('proof', 'quantification on the model (DDProps/C03) tied by exhaustive 3-variable correspondence; every-history capstone over the widest alphabet (Histories5), by name also with dynamic reordering enabled', 'Lean 4 proof + differential correspondence'),
+    'C04': ('proof', 'cofactor/compose/rename on the model (DDProps/C04) tied by exhaustive 3-variable correspondence; every-history capstone over the widest alphabet (Histories5)', 'Lean 4 proof + differential correspondence'),
+    'C05': ('proof', 'Lean model of the lexer (driven by the regenerated token tables) and a Pratt parser parametrised by the regenerated precedence table; print/parse round trip proved for every syntax tree, precedence table = documented table by decide, add_expr = bottom-up evaluation of the tree read, to_expr text = ite-unfolding; PLY/astutils tied by exhaustive short token strings and generated formulas; the semantic half (meaning of the evaluated tree) is stated, its pieces are the C01/C03/C04 theorems; lexical layer proved for every token string, spelling choice, blank and comment layout (C05Lex); the Pratt model only returns trees the regenerated grammar derives (C05Grammar); autoref round trip', 'Lean 4 proof + regenerated tables + differential correspondence'),
     'C06': ('proof', 'reference-count invariant and collection theorems on the model (DDProps/C06) tied by exhaustive short op sequences and long histories with exact state incl. counts, min_free, cache', 'Lean 4 proof + differential correspondence'),
-    'C07': ('proof', 'swap/sifting/sort model with recorded set orders; theorems in DDProps/C07; exact-state correspondence', 'Lean 4 proof + differential correspondence'),
-    'C08': ('proof', 'handle-registry model of dd.autoref (every method = membership tests + core op + wrap; temporaries of <= < succ low high as explicit wrap/drop pairs; drop = __del__) with the count equation ref = in-degree + live handles proved for the registry operations and, from the core specifications, for every method; exact-state correspondence after every operation on real Function objects', 'Lean 4 proof + differential correspondence'),
-    'C09': ('proof', 'model of _try_to_reorder with an abstract trigger (any find_or_add position, any threshold); generic transparency theorem (any body that returns its documented result or aborts having only added nodes) instantiated for ite, apply, var, quantify, the three let forms, cube, copy_bdd, add_expr (every construct), image, preimage (meaning under a neighbour proviso: known finding F4d) and chained calls; pickle load proved never to reorder; correspondence at every trigger position', 'Lean 4 proof + differential correspondence'),
+    'C07': ('proof', 'swap/sifting/sort model with recorded set orders; theorems in DDProps/C07; exact-state correspondence; the all_levels dictionary threaded through swap proved equal to the recomputed one (C07Levels, also checked on the real code at every swap); every choice of iteration orders is accepted by some schedule (C07Accept)', 'Lean 4 proof + differential correspondence'),
+    'C08': ('proof', 'handle-registry model of dd.autoref (every method = membership tests + core op + wrap; temporaries of <= < succ low high as explicit wrap/drop pairs; drop = __del__) with the count equation ref = in-degree + live handles proved for the registry operations and, from the core specifications, for every method; exact-state correspondence after every operation on real Function objects; values of the methods and comparisons by name (C08Values*), faithful model of _copy.copy_bdd over two managers incl. reordering in the target (C08XCopy), every recorded schedule and its acceptance (C08Sched, C08Accept)', 'Lean 4 proof + differential correspondence'),
+    'C09': ('proof', 'model of _try_to_reorder with an abstract trigger (any find_or_add position, any threshold); generic transparency theorem (any body that returns its documented result or aborts having only added nodes) instantiated for ite, apply, var, quantify, the three let forms, cube, copy_bdd, add_expr (every construct), image, preimage (meaning under a neighbour proviso: known finding F4d) and chained calls; pickle load proved never to reorder; correspondence at every trigger position; for EVERY recorded schedule of set-iteration orders, every outcome (C09Sched, C09SchedKeep), with acceptance: each choice of orders the code can make is realised by a schedule the model follows (C09Accept); fewer than two variables (C09Few)', 'Lean 4 proof + differential correspondence'),
     'C10': ('proof', 'support/count/pick_iter on the model (DDProps/C10) tied by exhaustive 3-variable correspondence', 'Lean 4 proof + differential correspondence'),
     'C11': ('proof', 'copy between managers on the model (DDProps/C11: same function by name for any two orders and any target content, target canonical, shared memo; copy_vars reproduces names and levels) tied by correspondence over order pairs', 'Lean 4 proof + differential correspondence'),
-    'C12': ('proof', 'abstract file-content model of pickle / whole-manager / JSON dumps and loads (the harness re-reads the files the real code wrote and feeds the same content to the model); pickle load proved at full strength for any levels flag, any target order, constant and absent roots; manager round trip unconditional; JSON dump and JSON load (both load_order values) and the JSON round trip proved for receiving managers with dynamic reordering not enabled, exact counts after every kind of load; reordering-enabled JSON targets tied by correspondence', 'Lean 4 proof + differential correspondence'),
+    'C12': ('proof', 'abstract file-content model of pickle / whole-manager / JSON dumps and loads (the harness re-reads the files the real code wrote and feeds the same content to the model); pickle load proved at full strength for any levels flag, any target order, constant and absent roots; manager round trip unconditional; JSON dump and JSON load (both load_order values) and the JSON round trip proved for receiving managers with dynamic reordering not enabled, exact counts after every kind of load; reordering-enabled JSON targets tied by correspondence; dump totality and default load(levels=True) (C12Total); item-order permutations of the files (C12Perm); reordering-enabled targets under every schedule (C12Sched, C12SchedKeep)', 'Lean 4 proof + differential correspondence'),
     'C13': ('proof', 'image/preimage on the model (DDProps/C13): image proved for any order, preimage proved at full strength under its literal preconditions for any order, any renaming and any target (the fused recursion where it is valid, rename/conjoin/quantify otherwise: repairs of F4d, F5, F5b); tied by exhaustive one-pair correspondence and sampled 2-3 pairs on arbitrary and padded orders', 'Lean 4 proof + differential correspondence'),
     'C14': ('proof', 'add_var/undeclare_vars on the model (DDProps/C14) tied by interleaving correspondence', 'Lean 4 proof + differential correspondence'),
-    'C15': ('proof', 'Lean model of dd.mdd.MDD (n-ary nodes, first edge regular, set allocator with recorded pop schedule) and of bdd_to_mdd; MInv, find_or_add / ite / apply (regenerated table) / canonicity / collection (either root sign) proved, every reachable MDD state good; bdd_to_mdd proved correct AND total (no assertion of the code can fire) for any setting of dynamic reordering (reorder into zones via the C07 sort theorem, cofactors follow edges only), held BDD functions preserved; tied by exact-state correspondence and an evaluation oracle on every integer assignment', 'Lean 4 proof + regenerated tables + differential correspondence'),
-    'C16': ('proof', 'abstract DDDMP file model (header tables, node list, re-indexing, bottom-up rebuild, root translation) with C16_load_spec proved for every well-formed file and numbering; text files tied by correspondence (the harness writes text and abstract encodings from the same data)', 'Lean 4 proof + differential correspondence'),
-    'C17': ('proof', 'total step functions: a rejected call keeps invariant, order, counts and every reference (DDProps/C17), reordering off (every user operation, every history) and ON (generic theorem for the decorator: failure before the request, after it, or in the retry after sifting; reordering stays enabled) + rejected add_var / undeclare_vars / swap / reorder / load change nothing; tied by malformed-call injection incl. partly valid calls and a trigger sweep of rejected calls', 'Lean 4 proof + differential correspondence'),
-    'C19': ('proof', 'source-level only (the C extensions cannot be built here): translators over the four .pyx files regenerate Lean tables on every run; cApply_sound / cVocab / cQuant_roles (every back end, after the repair of F6) / refTraces_balanced / refTraces_noFloatingUse (references kept in C arrays and Python containers are followed too; only test helpers are not covered) / refTraces_arraysFreed / cacheTags_distinct re-decided on them; partial by nature: relative to the line-structured reader and the hand-written C API semantics; nothing is executed', 'Lean 4 decide over tables regenerated from the .pyx sources'),
+    'C15': ('proof', 'Lean model of dd.mdd.MDD (n-ary nodes, first edge regular, set allocator with recorded pop schedule) and of bdd_to_mdd; MInv, find_or_add / ite / apply (regenerated table) / canonicity / collection (either root sign) proved, every reachable MDD state good; bdd_to_mdd proved correct AND total (no assertion of the code can fire) for any setting of dynamic reordering (reorder into zones via the C07 sort theorem, cofactors follow edges only), held BDD functions preserved; tied by exact-state correspondence and an evaluation oracle on every integer assignment; totality of ite/apply/find_or_add/collect_garbage, any pop order of the collection, any recorded _free.pop() with acceptance, failed calls unchanged', 'Lean 4 proof + regenerated tables + differential correspondence'),
+    'C16': ('proof', 'abstract DDDMP file model (header tables, node list, re-indexing, bottom-up rebuild, root translation) with C16_load_spec proved for every well-formed file and numbering; text files tied by correspondence (the harness writes text and abstract encodings from the same data); GoodState after load and chaining into every other property (C16Chain); header fields and the text layer (line dispatch, PLY header lexer and grammar regenerated from source: C16Text), files without name lists', 'Lean 4 proof + differential correspondence'),
+    'C17': ('proof', 'total step functions: a rejected call keeps invariant, order, counts and every reference (DDProps/C17), reordering off (every user operation, every history) and ON (generic theorem for the decorator: failure before the request, after it, or in the retry after sifting; reordering stays enabled) + rejected add_var / undeclare_vars / swap / reorder / load change nothing; tied by malformed-call injection incl. partly valid calls and a trigger sweep of rejected calls; failing loads of any content (pickle pre-checks, JSON both load_order values, reordering enabled: C17Load, C17Load2, C17Load2Sched), every way reorder(order) refuses (C17Reorder), max_nodes as a capacity layer: find_or_add / ite / var / apply at capacity keep the state (C17Capacity*), swap at capacity is known finding F22', 'Lean 4 proof + differential correspondence'),
+    'C19': ('proof', 'source-level only (the C extensions cannot be built here): translators over the four .pyx files regenerate Lean tables on every run; cApply_sound / cVocab / cQuant_roles (every back end, after the repair of F6) / refTraces_balanced / refTraces_noFloatingUse (references kept in C arrays and Python containers are followed too; only test helpers are not covered) / refTraces_arraysFreed / cacheTags_distinct re-decided on them; partial by nature: relative to the line-structured reader and the hand-written C API semantics; nothing is executed; exceptions raised inside callees, loop iterations, NULL-initialised arrays, rebound handles, deref kinds (37+ obligations); quantifier rows tied to the meaning on cubes (C19Quant)', 'Lean 4 decide over tables regenerated from the .pyx sources'),
     'C18': ('proof', 'structural views on the model (DDProps/C18) tied by re-reading the exported graphs', 'Lean 4 proof + differential correspondence'),
 }
 
